@@ -1457,7 +1457,18 @@ class ComponentSpecification(experiment.model.interface.InternalRepresentationAt
                 pattern = re.compile(r'\b' + re.escape(original_reference) + r'\b')
                 arguments = re.sub(pattern, replacement, arguments)
 
-            blueprint_name = self.identification.componentName.rstrip('0123456789')
+            # VV: Replicas are called "<blueprint name><replica index>". Only strip the replica index off the name of
+            #     actual replicas: a component which exists in the unreplicated graph is its own blueprint even when
+            #     its name ends in digits (e.g. "step7" must not use the executable of "step").
+            blueprint_name = self.identification.componentName
+            unreplicated_ids = self.workflowGraph.configuration._unreplicated.get_component_identifiers(False, True)
+            if (self.identification.stageIndex, blueprint_name) not in unreplicated_ids:
+                replica = self.configuration.get('variables', {}).get('replica')
+                suffix = str(replica) if replica is not None else ''
+                if suffix and blueprint_name.endswith(suffix):
+                    blueprint_name = blueprint_name[:-len(suffix)]
+                else:
+                    blueprint_name = blueprint_name.rstrip('0123456789')
 
             # VV: We need to fetch the executables before they were resolved. We don't want to have to resolve
             #     the executables of archived experiments before generating the memoization hashes of the components
